@@ -3,7 +3,7 @@ CONSTANTS Nib = {0, 1, 15}
           KeyLen = 2
           Vals = {10, 331}
           Pad = 0
-          MaxKeys = 3
+          MaxKeys = 2
           TrackHash = FALSE
           MaxRoots = 0
           Mode = "mc"
